@@ -88,7 +88,10 @@ def index_packet(r):
     entries = r.randint(1, 4)
     plen = 16 + 16 * entries
     e = b"".join(struct.pack("<QQ", r.randrange(1000), r.randrange(1 << 20)) for _ in range(entries))
-    return struct.pack("<BBHHB", 0, 0, plen - 1, entries, 0) + bytes(9) + e
+    # the index level (0 = leaf, > 0 = inner node of the index tree) is derived from the entry bytes, without
+    # a further draw, so that the packetisations of earlier seeds stay what they were
+    level = (sum(e) % 7) % 4 if sum(e) % 2 else 0
+    return struct.pack("<BBHHB", 0, 0, plen - 1, entries, level) + bytes(9) + e
 
 
 def ignored_packet(r):
@@ -282,7 +285,14 @@ class Xml:
             elif self.lex.get("ws") == "comments" and self.r.random() < 0.08:
                 # a comment is no part of an element's content, wherever it stands
                 c = "<!-- %s -->" % self.r.choice(["c", "1e9", "</x>", "NaN"])
-                if self.r.random() < 0.5:
+                where = self.r.random()
+                if where >= 0.66 and len(text) >= 2 and "&" not in text and "<" not in text:
+                    # in the middle of the character data (only where no entity or CDATA section can be cut)
+                    i = 1 + self.r.randrange(len(text) - 1)
+                    self.out.append("<%s%s>%s%s%s</%s>" % (tag, self.attrs(at), text[:i], c, text[i:], tag))
+                    self.used.add("comment-inside-leaf-middle")
+                    return
+                if where < 0.33:
                     front = c
                 else:
                     behind = c
